@@ -290,6 +290,12 @@ func c07Step(x *engine.Exec) []engine.Failure {
 		if x.Prev.Used[ClsEnv] > 0 {
 			x.Cnt.Inc("slash.after_restart")
 		}
+		for _, r := range ref.pendingRedsFrom(x.Op.V, prev.Time) {
+			if D := prev.Vals[r.Dst].DelShares[r.Denom]; D != nil && D.Sign() > 0 && D.Cmp(ratI(1)) < 0 {
+				x.Cnt.Inc("slash.with_destination_below_one_delegator_share")
+				break
+			}
+		}
 		for _, u := range ref.Unb {
 			if _, ok := prev.Assets[u.Denom]; !ok && u.V == x.Op.V {
 				x.Cnt.Inc("slash.with_pending_unbonding_of_deleted_asset")
@@ -459,10 +465,32 @@ func init() {
 				sc.Required = []string{"slash.hit_pending_unbonding", "asset.deleted_after_full_exits_at_unrepresentable_price"}
 				return sc
 			}
-			if tier == "thorough" {
-				return []*engine.Scenario{mk("c07-packing", []int{4, 2, 0, 2, 1}, 8), restart([]int{2, 2, 2, 3, 0}, 7), dust([]int{4, 1, 0, 0, 1}, 6)}
+			// the destination of a pending redelegation is worth whole tokens but is held by less than ONE delegator share in total
+			// (sole delegator of the destination validator, cut by an earlier 90% slash of the source): tokens are then priced 1:1
+			// in shares and the capped slash asks for more shares than exist - the "take all of them" fallback of the callback
+			subShare := func(budgets []int, depth int) *engine.Scenario {
+				sc := mk("c07-sub-share-destination", budgets, depth)
+				// (V2 carries so much of the asset that what a slash of V0 redistributes to V1 is negligible)
+				sc.Seeds = [][]world.Op{{opDel(0, 0, "aaa", "10"), opDel(1, 0, "aaa", "1000"), opDel(1, 2, "aaa", "1000000000"),
+					opRed(0, 0, 1, "aaa", "6"), opSlash(0, "0.5"), opUnd(0, 1, "aaa", "5"), opUnd(1, 0, "aaa", "300")}}
+				sc.Ops = func(n *engine.Node) []world.Op {
+					ops := []world.Op{
+						{K: world.KUndelegate, D: 1, V: 0, Denom: "aaa", Amt: "3", Class: ClsUser},
+						{K: world.KRedelegate, D: 1, V: 0, V2: 2, Denom: "aaa", Amt: "3", Class: ClsUser},
+						{K: world.KBlock, Dt: int64(U), Class: ClsBlock},
+					}
+					for _, f := range []string{"0.05", "0.5", "1"} {
+						ops = append(ops, world.Op{K: world.KSlash, V: 0, F: f, Class: ClsSlash})
+					}
+					return ops
+				}
+				sc.Required = []string{"slash.hit_pending_unbonding", "slash.hit_pending_redelegation", "slash.with_destination_below_one_delegator_share"}
+				return sc
 			}
-			return []*engine.Scenario{dust([]int{4, 1, 0, 0, 1}, 6), restart([]int{2, 1, 1, 3, 0}, 7), mk("c07-packing", []int{3, 1, 0, 2, 1}, 5)}
+			if tier == "thorough" {
+				return []*engine.Scenario{mk("c07-packing", []int{4, 2, 0, 2, 1}, 8), restart([]int{2, 2, 2, 3, 0}, 7), dust([]int{4, 1, 0, 0, 1}, 6), subShare([]int{3, 2, 0, 2, 0}, 6)}
+			}
+			return []*engine.Scenario{subShare([]int{2, 1, 0, 2, 0}, 5), dust([]int{4, 1, 0, 0, 1}, 6), restart([]int{2, 1, 1, 3, 0}, 7), mk("c07-packing", []int{3, 1, 0, 2, 1}, 5)}
 		},
 		Assumptions: []string{
 			"seed: D0 staked on V0,V1,V2 (aaa) and V0,V1 (bbb), D1 on V0,V2 (aaa); take rate 0 so that share prices move only through slashes",
